@@ -203,8 +203,14 @@ func workerBatch(t *testing.T) {
 	}
 
 	ok := true
-	if enumFrom >= 0 && pd.Enum != nil {
-		n, mk := pd.Enum(tier)
+	if enumFrom >= 0 && (pd.Enum != nil || pd.EnumT != nil) {
+		var n int
+		var mk func(int) *Plan
+		if pd.EnumT != nil {
+			n, mk = pd.EnumT(t, tier)
+		} else {
+			n, mk = pd.Enum(tier)
+		}
 		for i := enumFrom; i < enumFrom+enumCount && i < n && ok; i++ {
 			ok = one(i, mk(i), true)
 		}
@@ -324,6 +330,9 @@ func TestEnumCount(t *testing.T) {
 	n := 0
 	if pd != nil && pd.Enum != nil {
 		n, _ = pd.Enum(os.Getenv("VERIF_TIER"))
+	}
+	if pd != nil && pd.EnumT != nil {
+		n, _ = pd.EnumT(t, os.Getenv("VERIF_TIER"))
 	}
 	fmt.Printf("ENUM %d\n", n)
 }
